@@ -226,6 +226,16 @@ def check(ctx):
     for m, var, sym in (("_forward", "x", x), ("_inverse", "y", y),
                         ("_forward_log_det_jacobian", "x", x),
                         ("_inverse_log_det_jacobian", "y", y)):
+        if m.endswith("log_det_jacobian") and sg.own_method(m) is None:
+            # TFP would derive the missing one from the other through forward()/inverse():
+            # equal on paper, but evaluated through the saturating map (1 - y^2 with
+            # y -> +/-1 cancels in floating point) -- not provable here, so not accepted
+            ctx.ob("C18.R2", sg, f"{m} is given in closed form in its own argument (not "
+                                 f"derived by TFP through the other direction, which "
+                                 f"evaluates 1 - forward(x)^2 and cancels for large |x|)",
+                   False, unproven=True, detail=f"{m} is not defined by the class",
+                   stmt=f"{m} missing")
+            continue
         fi = method(repo, sg, m, own=True)
         rt = evaluate(repo, fi).ret()
         try:
@@ -233,7 +243,7 @@ def check(ctx):
         except Untranslatable as ex:
             ctx.ob("C18.R2", fi, f"{m} is plain arithmetic", False, unproven=True,
                    detail=f"untranslatable {short(ex.args[0])}")
-    if len(exprs) == 4:
+    if "_forward" in exprs and "_inverse" in exprs:
         f, g_ = exprs["_forward"], exprs["_inverse"]
         fwd = method(repo, sg, "_forward", own=True)
         inv = method(repo, sg, "_inverse", own=True)
@@ -246,16 +256,20 @@ def check(ctx):
                lo == -1 and hi == 1 and mono.is_positive is not False
                and sp.simplify(mono).subs(x, 0) > 0,
                detail=f"limits {lo}, {hi}; derivative {mono}", stmt=f"range of {f}")
-        fl = method(repo, sg, "_forward_log_det_jacobian", own=True)
-        ctx.ob("C18.R2", fl, "forward log-det-Jacobian == log(d forward / dx)",
-               is_zero(sp.diff(f, x) - sp.exp(exprs["_forward_log_det_jacobian"])),
-               detail=f"fldj={exprs['_forward_log_det_jacobian']}, f'={sp.simplify(sp.diff(f, x))}",
-               stmt=f"fldj {exprs['_forward_log_det_jacobian']}")
-        il = method(repo, sg, "_inverse_log_det_jacobian", own=True)
-        ctx.ob("C18.R2", il, "inverse log-det-Jacobian == log(d inverse / dy) on |y| < 1",
-               is_zero(sp.diff(g_, y) - sp.exp(exprs["_inverse_log_det_jacobian"])),
-               detail=f"ildj={exprs['_inverse_log_det_jacobian']}, g'={sp.simplify(sp.diff(g_, y))}",
-               stmt=f"ildj {exprs['_inverse_log_det_jacobian']}")
+        fl = sg.own_method("_forward_log_det_jacobian")
+        if "_forward_log_det_jacobian" in exprs:
+          ctx.ob("C18.R2", fl, "forward log-det-Jacobian == log(d forward / dx)",
+                 is_zero(sp.diff(f, x) - sp.exp(exprs["_forward_log_det_jacobian"])),
+                 detail=f"fldj={exprs['_forward_log_det_jacobian']}, "
+                        f"f'={sp.simplify(sp.diff(f, x))}",
+                 stmt=f"fldj {exprs['_forward_log_det_jacobian']}")
+        il = sg.own_method("_inverse_log_det_jacobian")
+        if "_inverse_log_det_jacobian" in exprs:
+          ctx.ob("C18.R2", il, "inverse log-det-Jacobian == log(d inverse / dy) on |y| < 1",
+                 is_zero(sp.diff(g_, y) - sp.exp(exprs["_inverse_log_det_jacobian"])),
+                 detail=f"ildj={exprs['_inverse_log_det_jacobian']}, "
+                        f"g'={sp.simplify(sp.diff(g_, y))}",
+                 stmt=f"ildj {exprs['_inverse_log_det_jacobian']}")
         ctx.extra["bijector_range"] = [str(lo), str(hi)]
     inc = method(repo, sg, "_is_increasing", own=True)
     ctx.ob("C18.R2", inc, "the bijector declares itself increasing",
